@@ -7,14 +7,7 @@ from . import common as C
 
 TECHNIQUE = "static analysis: premises of a partition lemma (ceiling form of the chunk size, affine start/end arithmetic over the same quantities, one worker per slice), sibling agreement of the sequential and the worker search, order-insensitive reduction (canonical key -> set de-duplication -> total sort, re-using the C05 obligations), use-analysis of every set-derived value that can reach the text report"
 EXPLANATION = (
-    "R1 (lemma: with W = ceil(n/c) the slices [t*W, min((t+1)*W, n)), t = 0..c-1, are disjoint and cover "
-    "[0, n)): W is one of the accepted ceiling forms of (len(kernel), cpu_count()); starts/ends have exactly "
-    "those affine forms over the same W, n, c; the slices are taken from the list the sequential branch "
-    "iterates; one process per slice receiving the shared list, its slice, the doubled graph and the offset. "
-    "Floor-division forms are violations (tail dropped). R2: worker body and sequential loop issue the same "
-    "path query and add every path found. R3: from the merge point to the return the data passes only "
-    "through canonical key -> set-based de-duplication -> total sort (the C05-R4/R6 obligations). R4: no "
-    "set-ordered sequence reaches the text report other than through membership tests or sorted iteration."
+    'R1 (lemma: with W = ceil(n/c) the slices [t*W, min((t+1)*W, n)), t = 0..c-1, are disjoint and cover [0, n)): W is one of the accepted ceiling forms of (len(kernel), cpu_count()); starts/ends have exactly those affine forms over the same W, n, c; the slices are taken from the list the sequential branch iterates; one process per slice receiving the shared list, its slice, the doubled graph and the offset. Floor-division forms are violations (tail dropped). R2: worker body and sequential loop issue the same path query (graph, source, target), neither skips a root nor bounds the depth below the longest possible cycle (C05-R3), and both add every path found. R3: from the merge point to the return the data passes only through canonical key -> set-based de-duplication -> total sort (the C05-R4/R6 obligations). R4: no set-ordered sequence reaches the text report other than through membership tests or sorted iteration.'
 )
 NOT_DECIDED = "Actual schedules and byte-identical repetition of the report (needs runs under perturbed schedules)."
 ASSUMPTIONS = ["Manager().list() preserves every element appended by a worker that was not killed"]
@@ -153,7 +146,7 @@ def _r2(ctx, f):
         loop = C.root_loop(c)
         root = U(loop.target) if isinstance(loop, ast.For) else "?"
         params = fi.params()
-        text = U(c)
+        text = "%s(%s)" % (U(c.func), ", ".join(U(a) for a in c.args[:3]))   # graph, source, target; the depth bound is judged below
         text = text.replace(root + ".", "ROOT.")
         return text
     a, b = norm(f, seq[0]), norm(ext, wrk[0])
@@ -165,6 +158,9 @@ def _r2(ctx, f):
             b = b.replace(prm, U(arg))
     ctx.check(a == b, "R2", "same path query in both variants", ext.where(wrk[0]),
               "sequential: %s / worker: %s" % (a, b), "KernelDG", "path query agreement")
+
+    from . import c05
+    c05.roots_and_depth(ctx, "R2", f, ext, seq, wrk, {f.params()[1]})
 
     def keeps_all(fi, c):
         """every path produced by the generator is added to the accumulator"""
